@@ -221,7 +221,7 @@ def generate(rng, tier):
           and (c["owner"] in ("DataType", "EntityType", "Workspace", "PropertyGroup")
                or (c["target"], c["owner"], c["member"], c["ekind"]) in set(MUTATORS))]
     rest = [dict(c, ctor="fallback") for c in cases if c["target"] is not None and "variant" not in c and c["ekind"] == "setter"]
-    fb += rng.sample(rest, 25 if tier == "quick" else len(rest))
+    fb += rng.sample(rest, 15 if tier == "quick" else len(rest))
     seen = set()
     for c in fb:
         k = (c["target"], c["owner"], c["member"], c["ekind"])
@@ -240,7 +240,7 @@ def generate(rng, tier):
         _entry_op(("curve", "Curve", "cells", "setter"))]})
     for n in (2, 3):
         cases.append({"kind": "helper", "which": "monitored_chain", "src_state": f"x{n}", "target": "pts", "n": n})
-    nseq = 36 if tier == "quick" else 1500
+    nseq = 30 if tier == "quick" else 1500
     # fixed sequences: a failed removal leaves a dead referent, the listing getter then has to sweep it (a write)
     cases.append({"kind": "seq", "lock": False, "ops": [
         _entry_op(("type_float", "EntityType", "create", "method")), {"op": "gc"}, {"op": "list", "kind": "types"},
@@ -699,6 +699,12 @@ def case_term(case, obs):
     if case["kind"] == "seq":
         ops, outs, hs, log, sites = [], [], [], [], []
         for op, rec in zip(case["ops"], obs["ops"]):
+            if (rec.get("repack_after") and not rec.get("repack_before") and rec.get("handle_before") == "closed"
+                    and op["op"] == "entry" and not any(len(c) > 6 and c[6] for c in rec["calls"])):
+                # the flag was set in memory on a closed workspace (the write that follows is refused): no file access involved
+                ops.append("MemRepack")
+                outs.append("None")
+                hs.append("Closed")
             if "not_driven" in rec:
                 ops.append("(Calls [])")
             else:
